@@ -187,6 +187,11 @@ def mpl_1d_cases(draw, tier="quick"):
         opts["ylabel"] = "custom y"
     if draw(st.integers(0, 4)) == 0:
         opts["ticks"] = draw(st.sampled_from(["center", "edge"]))
+    if kind in ("bar", "scatter") and mode != "both" and draw(st.integers(0, 3)) == 0 and any(x > 0 for x in hgen.flat(spec["freq"])):
+        # colour options: colours themselves are not checked, but the marks must stay put and the histogram untouched
+        opts["cmap"] = draw(st.sampled_from(["Greys", "viridis"]))
+        if draw(st.booleans()):
+            opts["cmap_normalize"] = "log"
     return {"kind": kind, "spec": spec, "opts": opts}
 
 
@@ -313,6 +318,8 @@ def mpl_2d_cases(draw, tier="quick"):
             opts["ylabel"] = "cy"
     if draw(st.booleans()):
         opts["show_colorbar"] = draw(st.booleans())
+    if kind == "image" and draw(st.integers(0, 2)) == 0 and any(x > 0 for x in hgen.flat(spec["freq"])):
+        opts["cmap_normalize"] = "log"  # (colours are not checked; the image array and the histogram are)
     return {"kind": kind, "spec": spec, "opts": opts}
 
 
